@@ -230,7 +230,7 @@ class CaseGen:
             kind = rng.choices(names_, ws)[0]
             pi = None
             if kind == "reset":
-                op = [0]
+                op = [0] if rng.random() < 0.7 else [0, rng.randrange(1000)]      # reset(seed=..., options=...)
                 if cfg.get("mask_choices") and modes[1]:
                     weights["mask"] = rng.choice(cfg["mask_choices"])     # re-drawn for every episode
                     names_, ws = zip(*weights.items())
@@ -366,7 +366,7 @@ class CaseGen:
 def model_ops(ops):
     """the operations as the model sees them: a goal query that is preceded by render calls ([3, i, 1]) is, for
     the model, the plain goal query (rendering is documented to change nothing)"""
-    return [[3, op[1]] if op[0] == 3 else [5] if op[0] == 5 else op for op in ops]
+    return [[3, op[1]] if op[0] == 3 else [5] if op[0] == 5 else [0] if op[0] == 0 else op for op in ops]
 
 
 def has_bad(x):
